@@ -160,6 +160,8 @@ pub struct Ctx {
     pub steps: u64,
     pub nodes: u64,
     pub over_budget: bool,
+    /// over budget by the static bound (the model itself stopped at an unspecified zone)
+    pub cost_unbounded: bool,
     /// bit i set <=> operator OPS[i] was executed with a valid operand count
     pub ops_executed: u64,
     /// operands / branches / elements skipped by short-circuit evaluation
@@ -887,7 +889,14 @@ impl Ctx {
         // (element, is_expression)
         let elements: Vec<(Value, bool)> = match first {
             Value::Array(items) => items.iter().map(|e| (e.clone(), true)).collect(),
-            Value::String(s) => s.chars().map(|c| (Value::String(c.to_string()), false)).collect(),
+            Value::String(s) => {
+                self.nodes += s.len() as u64;
+                if self.nodes > MAX_NODES {
+                    self.over_budget = true;
+                    return Res::Unspec("over_budget");
+                }
+                s.chars().map(|c| (Value::String(c.to_string()), false)).collect()
+            }
             Value::Null => vec![],
             Value::Object(_) => {
                 let v = match self.eval(first, data) {
@@ -901,7 +910,14 @@ impl Ctx {
                         }
                         items.into_iter().map(|e| (e, false)).collect()
                     }
-                    Value::String(s) => s.chars().map(|c| (Value::String(c.to_string()), false)).collect(),
+                    Value::String(s) => {
+                        self.nodes += s.len() as u64;
+                        if self.nodes > MAX_NODES {
+                            self.over_budget = true;
+                            return Res::Unspec("over_budget");
+                        }
+                        s.chars().map(|c| (Value::String(c.to_string()), false)).collect()
+                    }
                     Value::Null => vec![],
                     _ => return Res::Err,
                 }
@@ -1007,6 +1023,16 @@ fn libm_fmod(a: f64, b: f64) -> f64 {
 pub fn eval(rule: &Value, data: &Value) -> (Res, Ctx) {
     let mut ctx = Ctx::new();
     let r = ctx.eval(rule, data);
-    let r = if ctx.over_budget { Res::Unspec("over_budget") } else { r };
+    let mut r = if ctx.over_budget { Res::Unspec("over_budget") } else { r };
+    // the model stopped at an unspecified zone: it has not seen the rest of the rule, so only a static worst-case
+    // bound can say whether the rule is cheap under every reading (model/cost.rs); if it is not, the case counts as
+    // over budget like any other whose inherent cost is too high
+    if let Res::Unspec(z) = r {
+        if z != "over_budget" && !super::cost::cheap(rule, data) {
+            ctx.over_budget = true;
+            ctx.cost_unbounded = true;
+            r = Res::Unspec("over_budget");
+        }
+    }
     (r, ctx)
 }
